@@ -15,6 +15,10 @@ if m:
     d = m.group(1)
     d = re.sub(r"^\$\{?\w+\}?/", "", d)          # $TREE/ , $WT/
     d = re.sub(r"^/tmp/[^/]+/[^/]+/", "", d)      # /tmp/x/wt/
+    d = d.strip('"\'')
+    # a placeholder for the tree root written without `$` (TREE/air/tests/.., T/crates/..)
+    while d.split("/")[0] not in ("air", "crates", "avm", "tools", "junk") and "/" in d:
+        d = d.split("/", 1)[1]
     dest = d if d.endswith(".rs") else d.rstrip("/") + "/" + demo
 m2 = re.search(r"cargo test\s+(-p\s+\S+(?:\s+--features\s+\S+)?)", readme)
 crate = None
